@@ -84,6 +84,7 @@ pub const TRAITS: &[&str] = &[
 const UNKNOWN_TRAITS: &[&str] = &[
     "Index", "From", "Display", "clone", "PartialEqq", "AddAssignAssign", "Assign", "r#Clone",
     "Sized", "Send", "AsRef", "Iterator", "Ex", "derive_ex", "bound", "dump", "Self", "Fn",
+    "@long1100",
 ];
 const HELPER_ATTRS: &[&str] = &[
     "#[ord(ignore)]",
@@ -242,6 +243,7 @@ const IDENTS: &[&str] = &[
     "N", "Output", "Target", "_eq", "_f", "Self_", "core", "std", "a", "Ordering", "Option",
     "_other_0", "_this_0", "__eq__0", "r#Self_", "value", "r#self_", "eq", "cmp", "hash", "fmt",
     "clone", "default", "i", "l", "r", "_", "__", "r#dyn", "r#async", "usize", "bool", "Some",
+    "@long300", "@long1100", "@long5000",
 ];
 const BOUND_ARGS: &[&str] = &[
     "T", "..", "T: Clone", "T, ..", "", "Vec<T>", "T: Clone + 'static, U",
@@ -340,11 +342,26 @@ fn suffixed(id: &Ident, sep: &str, n: usize) -> Ident {
     syn::parse_str::<Ident>(&format!("{base}{sep}{n}"))
         .unwrap_or_else(|_| Ident::new(&format!("g{n}"), Span::call_site()))
 }
+/// Dictionary entries starting with `@long` stand for identifiers of that many characters.
+pub fn ident_text(s: &str) -> String {
+    match s.strip_prefix("@long") {
+        Some(n) => {
+            let n: usize = n.parse().unwrap_or(300);
+            let mut t = String::from("L");
+            while t.len() < n {
+                t.push_str("ong_identifier_");
+            }
+            t.truncate(n);
+            t
+        }
+        None => s.to_string(),
+    }
+}
 fn mk_ident(s: &str) -> Option<Ident> {
-    if s == "_" || s == "__" && false {
+    if s == "_" {
         return None;
     }
-    syn::parse_str::<Ident>(s).ok()
+    syn::parse_str::<Ident>(&ident_text(s)).ok()
 }
 
 // ---------------------------------------------------------------- access helpers
@@ -439,7 +456,7 @@ pub fn trait_list(rng: &mut Rng) -> String {
     let mut parts: Vec<String> = Vec::new();
     for _ in 0..n {
         let name = if rng.chance(1, 12) {
-            rng.pick_str(UNKNOWN_TRAITS).to_string()
+            ident_text(rng.pick_str(UNKNOWN_TRAITS))
         } else {
             rng.pick_str(TRAITS).to_string()
         };
@@ -524,14 +541,14 @@ fn edit_tokens(ts: &TokenStream, rng: &mut Rng) -> TokenStream {
             let i = rng.below(v.len());
             let frag = if matches!(v[i], TokenTree::Ident(_)) && rng.chance(1, 2) {
                 if rng.chance(1, 2) {
-                    rng.pick_str(TRAITS)
+                    rng.pick_str(TRAITS).to_string()
                 } else {
-                    rng.pick_str(IDENTS)
+                    ident_text(rng.pick_str(IDENTS))
                 }
             } else {
-                rng.pick_str(ATTR_TOKENS)
+                rng.pick_str(ATTR_TOKENS).to_string()
             };
-            if let Some(f) = lex(frag) {
+            if let Some(f) = lex(&frag) {
                 let tail: Vec<TokenTree> = v.split_off(i + 1);
                 v.pop();
                 v.extend(f);
@@ -1909,7 +1926,7 @@ pub fn selftest_dictionaries() -> Vec<String> {
         }
     }
     for s in IDENTS {
-        if *s != "_" && mk_ident(s).is_none() {
+        if *s != "_" && *s != "__" && mk_ident(s).is_none() {
             bad.push(format!("IDENTS: {s}"));
         }
     }
